@@ -42,6 +42,10 @@ INPUTS_SMALL = {
     "intfloat2": [{"n": "2", "r": "2.5", "k": "x"}, {"n": "3", "r": "4", "k": "y"}],
     "dates": [{"day": "2020-01-01", "at": "12:30", "ts": "2020-01-01T10:00:00", "n": "5"}],
     "dates2": [{"born": "1999-12-31", "seen": "2021-05-06T07:08:09", "alarm": "06:45"}],
+    # two similar models (they merge) whose same-named field points to different, non-mergeable nested models; two inputs with the
+    # same model indexes and different contents
+    "poly": [{"e1": {"id": 1, "kind": "a", "ts": 1, "payload": {"x": 1, "y": 2}}, "e2": {"id": 2, "kind": "b", "ts": 2, "payload": {"p": "s", "q": [1]}}}],
+    "poly2": [{"o1": {"no": 1, "state": "a", "at": 1, "payload": {"u": 1.5, "v": 2}}, "o2": {"no": 2, "state": "b", "at": 2, "payload": {"r": "s", "s": [1]}}}],
 }
 INPUTS = INPUTS_SMALL
 # thread bodies: (input, framework, layout, generator kwargs)
@@ -58,6 +62,8 @@ BODIES = {
     "T8": ("intfloat2", "attrs", "flat", {}, "defreg"),
     "T9": ("dates", "pydantic", "flat", {}, "cli"),
     "T10": ("dates2", "dataclasses", "flat", {}, "cli"),
+    "T12": ("poly", "pydantic", "flat", {}),
+    "T13": ("poly2", "dataclasses", "flat", {}),
     # library use of the default registry on date-like strings, next to a CLI run that (re-)registers the datetime types in it
     "T11": ("dates", "attrs", "flat", {}, "defreg"),
 }
@@ -308,6 +314,10 @@ def run(tier, seed):
         plans.append({"threads": ["T5", "T6"], "gran": "call", "bound": 1, "whole": True})
         plans.append({"threads": ["T5", "T6"], "gran": "line", "bound": 1, "whole": True})
         plans.append({"threads": ["T4", "T2"], "gran": "line", "bound": 1, "whole": False})
+        # merges whose decision compares nested models deeply (ModelMeta.__eq__ / merge_field_sets) in both threads at once
+        plans.append({"threads": ["T12", "T13"], "gran": "call", "bound": 1, "whole": True})
+        plans.append({"threads": ["T12", "T12"], "gran": "call", "bound": 1, "whole": True})
+        plans.append({"threads": ["T12", "T13"], "gran": "line", "bound": 1, "whole": True})
         # shared process-wide state: default registry (T7, T8) and the CLI's datetime registration (T9, T10); forked per schedule
         for pair in (["T7", "T8"], ["T9", "T10"]):
             plans.append({"threads": pair, "gran": "call", "bound": 1, "whole": True})
@@ -342,6 +352,9 @@ def run(tier, seed):
         for tri in (["T1", "T2", "T3"],):
             plans.append({"threads": tri, "gran": "call", "bound": 2, "whole": False})
         plans.append({"threads": ["T1", "T2", "T3", "T4"], "gran": "call", "bound": 1, "whole": True})
+        for pair in (["T12", "T13"], ["T12", "T12"]):
+            plans.append({"threads": pair, "gran": "call", "bound": 2, "whole": True})
+            plans.append({"threads": pair, "gran": "line", "bound": 1, "whole": True})
         plans.append({"threads": ["T1", "T2", "T3", "T4", "T5", "T6", "T1", "T3"], "gran": "call", "bound": 1, "whole": False})
     r.rule = ("(a) 5 frameworks x 2 layouts in a fresh worker thread; (b) all schedules with <= bound preemptions for each plan (thread tuple, "
               "granularity, bound): quick 3 pairs (either thread may start) at call granularity bound 2 + line granularity bound 1; thorough all ordered pairs "
@@ -352,8 +365,9 @@ def run(tier, seed):
                      "scheduling points only inside json_to_models frames: third-party code (jinja2, inflection, unidecode) runs atomically",
                      "free-running pass is supplementary evidence, not the deciding step"]
     # (a)
-    anyt = [{"k": "any_thread", "fw": fw, "layout": lay, "input": "shared" if lay == "flat" else "literal"}
-            for fw in pipeline.FRAMEWORKS for lay in ("flat", "nested")]
+    anyt = [{"k": "any_thread", "fw": fw, "layout": lay, "input": inp}
+            for fw in pipeline.FRAMEWORKS for lay in ("flat", "nested")
+            for inp in (("shared" if lay == "flat" else "literal"), "nonascii", "intfloat", "poly")]
     for case, res in core.pmap(execute, anyt, chunksize=1):
         r.add(case, res)
     # (b) iterative preemption bounding
